@@ -154,6 +154,15 @@ namespace GeographicLib {
   public:
     static int Cell(int n, int m) { return n * 100 + m; }
     static int Use(int n, int m) { return Cell(m, n); }
+    // N1: the sine/cosine are taken before the far-side reflection of lon
+    static double Fold(double lon) {
+      int lonsign = std::signbit(lon) ? -1 : 1;
+      lon *= lonsign;
+      double slam, clam;
+      Math::sincosd(lon, slam, clam);
+      if (lon > 90) lon = 180 - lon;
+      return slam * lonsign + clam + lon;
+    }
     static bool LengthOk(int width, int height, unsigned long long filelen)
     { return 4u * unsigned(width) * unsigned(height) == filelen; }
   };
